@@ -34,7 +34,7 @@ var scalarOps = func() []string {
 
 var extremeInts = []int64{0, 1, -1, 2, -2, 3, 7, math.MaxInt64, math.MinInt64, math.MaxInt64 - 1, math.MinInt64 + 1, 1 << 32, -(1 << 31), 1<<31 - 1, 1 << 31, 1<<53 + 1, -(1 << 53) - 1, 1 << 24, -(1 << 15)}
 
-var wrongValues = []interface{}{"a", "", true, int64(5), []int64{1}, []string{"a"}, nil, 2.5, map[int64]struct{}{1: {}}, 2.0, float32(3), float64(0)}
+var wrongValues = []interface{}{"a", "", true, int64(5), []int64{1}, []string{"a"}, nil, 2.5, map[int64]struct{}{1: {}}, 2.0, float64(3), float64(0)}
 
 func opCategory(op string) string {
 	switch m.Aliases[op] {
